@@ -1,6 +1,7 @@
-(* Props/C02.v *)
+(* Props/C02.v — acknowledged commits survive crashes *)
 From Coq Require Import List NArith Arith Bool.
 From SKV Require Import Base.Lex Txn.WriteSet Spec.Store.
+From SKV Require Import Crash.Fs Crash.FsSpec Crash.Fs_proofs Crash.Proto Crash.ProtoSpec Crash.ProtoRefute Crash.ProtoCheck Crash.Proto_proofs.
 Import ListNotations.
 
 (* recovery as a specification: the state after the first n commits; states of longer prefixes
@@ -13,3 +14,52 @@ Proof.
   replace (S (length h)) with (length (h ++ [b])) by (rewrite app_length; cbn [length]; apply Nat.add_1_r).
   rewrite !firstn_all. rewrite fold_left_app. reflexivity.
 Qed.
+
+(* protocol level: for every accepted trace (any number of sessions: crashes are events), every cut
+   and both crash models the store opens and every batch whose acknowledgement obliges the store for
+   that kind of crash is recovered completely *)
+Theorem C02_durable_after_crash : durable_after_crash_stmt.
+Proof. exact durable_after_crash. Qed.
+
+Theorem C02_generations_compose : generations_compose_stmt.
+Proof. exact generations_compose. Qed.
+
+Theorem C02_proto_ok_prefix : proto_ok_prefix_stmt.
+Proof. exact proto_ok_prefix. Qed.
+
+(* file-system level facts the event abstraction relies on *)
+Theorem C02_fsync_durable : fsync_durable_stmt.
+Proof. exact fsync_durable. Qed.
+
+Theorem C02_append_only_prefix : append_only_prefix_stmt.
+Proof. exact append_only_prefix. Qed.
+
+Theorem C02_atomic_replace : atomic_replace_stmt.
+Proof. exact atomic_replace_ok. Qed.
+
+(* what the obligations exclude (old behaviours) *)
+Theorem C02_compaction_unsynced_refuted : compaction_unsynced_refuted_stmt.
+Proof. exact compaction_unsynced_refuted. Qed.
+
+Theorem C02_arena_full_unlink_refuted : arena_full_unlink_refuted_stmt.
+Proof. exact arena_full_unlink_refuted. Qed.
+
+Theorem C02_split_marked_flushed_refuted : split_marked_flushed_refuted_stmt.
+Proof. exact split_marked_flushed_refuted. Qed.
+
+Theorem C02_relog_accepted : relog_accepted_stmt.
+Proof. exact relog_accepted. Qed.
+
+Theorem C02_recovery_nonlast_split_refuted : recovery_nonlast_split_refuted_stmt.
+Proof. exact recovery_nonlast_split_refuted. Qed.
+
+Theorem C02_p2s_needed : p2s_needed_stmt.
+Proof. exact p2s_needed. Qed.
+
+Theorem C02_p3_needed : p3_needed_stmt.
+Proof. exact p3_needed. Qed.
+
+(* the hypotheses are satisfiable and the statements were validated before being proved: all
+   accepted traces of length <= 5 over a 25-event alphabet (242541 of them), four crashes each *)
+Example C02_small_traces_checked : explore 5 st0 = true.
+Proof. vm_compute. reflexivity. Qed.
